@@ -43,7 +43,7 @@ def setup():
 
 # ================================================================================================ programs
 class Case:
-    __slots__ = ("id", "tag", "roots", "files", "budget", "stat", "matching", "nontrivial", "command", "corpus", "expected_symbols")
+    __slots__ = ("id", "tag", "roots", "files", "budget", "stat", "matching", "nontrivial", "command", "corpus", "expected_symbols", "fresh_k")
 
     def __init__(self, tag, roots, files, budget=10, stat=1, matching=1, command=None, corpus=None):
         self.tag, self.roots, self.files, self.budget, self.stat, self.matching = tag, list(roots), dict(files), budget, stat, matching
@@ -51,6 +51,7 @@ class Case:
         self.id = None
         self.nontrivial = True
         self.expected_symbols = None
+        self.fresh_k = 0          # > 0: always run in fresh processes, at least this many (only a new process reseeds std's hasher for sure)
 
     def line(self, mode, k):
         return "A\t%s\t%s\t%d\t%d\t%d\t%s\t%s" % (
@@ -137,6 +138,16 @@ def generated_cases(chk):
     for _ in range(60 * scale):
         roots, files, tag = c10_gen.once_sets(r)
         out.append(Case("g-c10/" + tag, roots, files))
+    # the two families whose only hash-order-sensitive observable is a listing order: always in fresh processes, k >= 8
+    for _ in range(40 * scale):
+        roots, files, tag, matching = c10_gen.ambiguous(r)
+        out.append(Case("g-c10/" + tag, roots, files, matching=matching))
+        out[-1].fresh_k = 8
+    for _ in range(40 * scale):
+        roots, files, tag, expected = c10_gen.modules(r)
+        out.append(Case("g-c10/" + tag, roots, files))
+        out[-1].expected_symbols = expected
+        out[-1].fresh_k = 8
     # generators of the other properties
     try:
         import c13_gen
@@ -419,16 +430,18 @@ def stream_fresh(chk, cases, status, real, k):
         nc = 100 if quick else len(corp)
         ne = (limit - min(nc, len(corp))) * 9 // 20
         idx = sorted(set(r.shuffle(corp)[:nc] + r.shuffle(errs)[:ne] + r.shuffle(oks)[:limit - min(nc, len(corp)) - ne]))
+    idx = sorted(set(idx) | set(i for i, c in enumerate(cases) if c.fresh_k and disk_ok(c)))
 
     def work(i):
         c = cases[i]
         root = os.path.join(SCRATCH, "fresh_%d" % i)
         materialise(c, root)
         before = snapshot(root, {})
-        outs = run_fresh(real, real_argv(c), root, before, k)
+        kk = max(k, c.fresh_k)
+        outs = run_fresh(real, real_argv(c), root, before, kk)
         extra = None
         if c.command:
-            extra = run_fresh(real, c.command[1:], root, before, k)
+            extra = run_fresh(real, c.command[1:], root, before, kk)
         shutil.rmtree(root, ignore_errors=True)
         return outs, extra
     with ThreadPoolExecutor(vlib.NCPU) as ex:
@@ -446,7 +459,9 @@ def stream_fresh(chk, cases, status, real, k):
             rep2 = c.replay()
             rep2["argv"] = c.command[1:]
             compare_fresh(chk, "%s with its own command line %r" % (c.corpus, c.command[1:]), extra, rep2, "fresh")
-    chk.count("fresh-processes", len(idx), runs=len(idx) * k, **dist)
+    dist["ambiguous_and_module_programs_8_runs"] = sum(1 for i in idx if cases[i].fresh_k)
+    dist["failing_programs"] = sum(1 for i in idx if status[i] == "ERR")
+    chk.count("fresh-processes", len(idx), runs=sum(max(k, cases[i].fresh_k) for i in idx), **dist)
     chk.cov["traces_validated_against_impl"] += len(idx)
 
 
@@ -528,11 +543,12 @@ def inventory_report(chk):
 
 def run(chk):
     chk.rule = RULE
+    scan_failure = None
     try:
         setup()
         inventory_report(chk)
-    except Exception as e:   # the scanner met a construct it cannot classify: the tie to the source is broken (the stale tables stay)
-        chk.violation("the C10 inventory scan cannot read the current source: %r" % (e,), {"kind": "inventory", "error": repr(e)}, found=False)
+    except Exception as e:   # the scanner met a construct it cannot classify: the tie to the source is broken (the stale tables stay);
+        scan_failure = e     # reported AFTER the streams, so that concrete differing runs come first among the replays
     import time
     t0 = time.time()
     timing = chk.cov.setdefault("timing_s", {})
@@ -576,6 +592,8 @@ def run(chk):
         chk.sample({"tag": c.tag, "corpus": c.corpus, "roots": c.roots, "options": [c.budget, c.stat, c.matching], "status": status[i],
                     "main": c.files[c.roots[0]].decode("utf-8", "replace")[:400] if c.roots[0] in c.files else None})
     shutil.rmtree(SCRATCH, ignore_errors=True)
+    if scan_failure is not None:
+        chk.violation("the C10 inventory scan cannot read the current source: %r" % (scan_failure,), {"kind": "inventory", "error": repr(scan_failure)}, found=False)
     chk.assumptions = vlib.TRUSTED_BASE + [
         "C10 is partial by nature: PROVED = each hash-container iteration site inventoried in the current source computes a result that does not depend on the iteration order (Props/C10.v), "
         "the inventory is complete with respect to the text-level scan (every iteration / hand-over / ambient-state use found by tools/translate_c10.py is in the hand-written covered / allowed lists, "
